@@ -163,6 +163,51 @@ def w2(F, rep):
     rep.floor("W2", "constant-width-writes", n, 8)
 
 
+def w2b(ctx, rep):
+    """Every BitWriter::write fits the 32-bit bit buffer: at most 7 bits are pending after flush_whole_bytes, so the
+    width must be provably <= 25.  Widths are bounded by upper-bound inference; Huffman code lengths are <= 15 by the
+    reviewed summary below (its obligation: the X2 guard `code lengths validated before any tree is built`)."""
+    from ..ub import UB, INF
+    from .guard import x2 as _x2
+    from ..core import Report
+    F = ctx.lib
+    U = UB(F)
+    tmp = Report("tmp", "quick")
+    _x2(ctx, tmp)
+    validated = any(o.instance == "code-lengths-validated" and o.ok for o in tmp.obs)
+    try:
+        mx = F.const_int(P + "huffman_helper::is_valid_huffman_code_lengths::MAX_CODE_LENGTH")
+    except Exception:
+        mx = None
+    hv = F.body(P + "huffman_helper::is_valid_huffman_code_lengths")
+    rej = any(hv.term(sb)["k"] == "switch" and re.match(r"^Ge\(var\(length\), K%s\)$" % mx, flow.describe(hv, hv.term(sb)["d"], names=True) or "") for sb in hv.normal_blocks())
+    ok_sum = validated and mx is not None and mx - 1 <= 15 and rej
+    rep.add("W2", "summary:huffman-code-lengths<=15", ok_sum, "", "is_valid_huffman_code_lengths rejects `length >= %s` (%s) and dominates tree construction (%s)" % (mx, rej, validated))
+    if ok_sum:
+        for f in ("lit_code_lengths", "dist_code_lengths", "code_lengths"):
+            U.elem_bounds[f] = mx - 1
+    # the pending-bit bound itself: flush_whole_bytes loops while bits_in >= 8
+    fw = F.body(P + "bit_writer::BitWriter::flush_whole_bytes")
+    fl = [flow.describe(fw, fw.term(sb)["d"], names=True) for sb in fw.normal_blocks() if fw.term(sb)["k"] == "switch"]
+    wr = F.body(P + "bit_writer::BitWriter::write")
+    calls_flush = [bb for bb, t in wr.calls() if strip_generics(callee_def(t)).endswith("flush_whole_bytes")]
+    rep.add("W2", "summary:at-most-7-bits-pending", fl == ["Ge(var(self).bits_in, K8)"] and len(calls_flush) == 1, "%s:%s" % (fw.file, fw.line),
+            "flush_whole_bytes drains while `%s`; write() ends with it" % fl)
+    n = 0
+    for name, fb in sorted(F.bodies.items()):
+        if not (name.startswith(P + "deflate_writer::") or name.startswith(P + "huffman_encoding::") or name.startswith(P + "bit_writer::BitWriter::pad")):
+            continue
+        k = 0
+        for bb, t in sorted(_calls_named(fb, "BitWriter::write")):
+            n += 1
+            v = U.operand(fb, t["args"][2], bb)
+            ok = v != INF and v <= 25
+            rep.add("W2", "width<=25:%s#%d" % (name.replace(P, ""), k), ok, fb.where(bb),
+                    "upper bound of the width %s is %s (the 32-bit buffer holds 7 pending bits + 25)" % (flow.describe(fb, t["args"][2], names=True), v))
+            k += 1
+    rep.floor("W2", "bit-writes", n, 12)
+
+
 def w3(F, rep):
     b = F.body(ENC)
     where = "%s:%s" % (b.file, b.line)
@@ -352,6 +397,7 @@ def run(ctx, rep):
     rep.trusted = ["calc_huffman_codes agrees with calculate_huffman_code_tree (not decided)", "BitWriter packs LSB-first as BitReader unpacks (C03/T5 reads single bytes)"]
     w1(F, rep)
     w2(F, rep)
+    w2b(ctx, rep)
     w3(F, rep)
     w4(F, rep)
     w5(F, rep)
